@@ -162,6 +162,32 @@ def readOffsets : Nat → Bytes → List (Nat × Nat) → Res (List (Nat × Nat)
     if acc.any (·.1 == name) then .err .invalidData
     else readOffsets n r2 (insertSortedNat name off acc)
 
+/-- `Seek::seek(SeekFrom::Start(pos))` on a cfb stream: a position beyond the end of the
+stream is refused (InvalidInput); the end itself is allowed -/
+def seekTo (data : Bytes) (pos : Nat) : Res Bytes :=
+  if pos > data.length then .err .invalidInput else .ok (data.drop pos)
+
+/-- the code page of a property set: property 1 if present (an I2 holding a known id), else the default -/
+def readCodepage (data : Bytes) (sectionOffset : Nat) (offs : List (Nat × Nat)) : Res Nat :=
+  match offs.find? (·.1 == Gen.propCodepage) with
+  | some (_, off) => do
+    let here ← seekTo data (sectionOffset + off)
+    let v ← PropVal.read Gen.cpDefault here
+    match v with
+    | .i2 n => Res.ofOption (CodePage.fromId ((ofI16 n : Nat) : Int)) .invalidData
+    | _ => .err .invalidData
+  | none => pure Gen.cpDefault
+
+/-- the values at their offsets, in property-id order -/
+def readVals (data : Bytes) (ver sectionOffset cp : Nat) :
+    List (Nat × Nat) → List (Nat × PropVal) → Res (List (Nat × PropVal))
+  | [], acc => pure acc.reverse
+  | (name, off) :: rest, acc => do
+    let here ← seekTo data (sectionOffset + off)
+    let v ← PropVal.read cp here
+    if v.minVersion > ver then .err .invalidData
+    else readVals data ver sectionOffset cp rest ((name, v) :: acc)
+
 /-- `PropertySet::read` (the reader seeks: positions are absolute offsets into `data`) -/
 def read (data : Bytes) : Res PropSet := do
   let (bom, r) ← readU16 data
@@ -176,27 +202,12 @@ def read (data : Bytes) : Res PropSet := do
   if reserved < 1 then .err .invalidData else
   let (fmtid, r) ← readExact 16 r
   let (sectionOffset, _) ← readU32 r
-  let sect := data.drop sectionOffset
+  let sect ← seekTo data sectionOffset
   let (_size, r) ← readU32 sect
   let (num, r) ← readU32 r
   let offs ← readOffsets num r []
-  let cp ← match offs.find? (·.1 == Gen.propCodepage) with
-    | some (_, off) => do
-      let v ← PropVal.read Gen.cpDefault (data.drop (sectionOffset + off))
-      match v with
-      | .i2 n =>
-        match CodePage.fromId ((ofI16 n : Nat) : Int) with
-        | some c => pure c
-        | none => .err .invalidData
-      | _ => .err .invalidData
-    | none => pure Gen.cpDefault
-  let rec vals : List (Nat × Nat) → List (Nat × PropVal) → Res (List (Nat × PropVal))
-    | [], acc => pure acc.reverse
-    | (name, off) :: rest, acc => do
-      let v ← PropVal.read cp (data.drop (sectionOffset + off))
-      if v.minVersion > ver then .err .invalidData
-      else vals rest ((name, v) :: acc)
-  let props ← vals offs []
+  let cp ← readCodepage data sectionOffset offs
+  let props ← readVals data ver sectionOffset cp offs []
   pure ⟨os, osVersion, clsid, fmtid, cp, props⟩
 
 end PropSet
